@@ -120,6 +120,11 @@ class Profile:
             cfg["steps"] = max(cfg["steps"], 600)
             cfg["universe"] = min(cfg.get("universe", 40), 40)
             cfg["eml_universe"] = min(cfg.get("eml_universe", 80), 80)
+            cfg["world_cap"] = 120
+            for k in ("restart", "forget", "import_xml", "eml_seed"):
+                if k in cfg["weights"]:
+                    cfg["weights"][k] *= 0.2     # the expensive steps, thinned out
+            cfg["max_copy"] = min(cfg.get("max_copy", 20), 20)
             cfg.pop("big_world", None)
         return cfg
 
@@ -452,6 +457,7 @@ class Registry(Profile):
         if rng.random() < 0.03:
             # a few runs with a very large registry (thousands of entries)
             cfg["big_world"] = True
+            cfg["world_cap"] = 4000
             cfg["universe"] = 3000
             cfg["eml_universe"] = 3000
             cfg["weights"]["import_xml"] = cfg["weights"].get("import_xml", 1) * 6 + 6
